@@ -1,10 +1,11 @@
 import GolibsVerif.Driver.C15
 import GolibsVerif.Driver.C03
 import GolibsVerif.Driver.C02
+import GolibsVerif.Driver.C04
 
 namespace GolibsVerif.Driver
 
-def handlers : List (String → List String → Option String) := [C15.handle, C03.handle, C02.handle]
+def handlers : List (String → List String → Option String) := [C15.handle, C03.handle, C02.handle, C04.handle]
 
 def dispatch (line : String) : String :=
   match (line.trimAscii.toString).splitOn " " with
